@@ -383,7 +383,9 @@ func treetraceMain(args []string) int {
 					parent := t.nodes[pid-1]
 					// detector: accept headers starting with the first byte(s) of a random sample, or all, or none
 					var det func([]byte, uint32) bool
-					switch rng.Intn(5) {
+					switch rng.Intn(6) {
+					case 5: // a signature that depends on how much of the input is visible (a trailer, a minimum size)
+						det = func(raw []byte, _ uint32) bool { return len(raw) > 3300 }
 					case 0:
 						det = func([]byte, uint32) bool { return true }
 					case 1:
